@@ -19,7 +19,7 @@ ASSUMPTIONS = [
     'reference isotope masses and abundances: pv/refchem.py literals (cross-checked against chem.txt by C02)',
     'lightest-peak and mean clauses: mass view, no pruning option set, elements whose lightest isotope is the most abundant (C,H,N,O,S,P) for the lightest-peak clause',
     'estimate part: averagine ratios C4.9384 H7.7583 N1.3577 O1.4773 S0.0417 (Senko 1995) scaled so that the MONOISOTOPIC mass equals neutral_mass (the library docstring and ISOTOPIC_AVERAGINE_MASS say so)',
-    'tolerances: lightest peak (#elements+1)*10^-resolution; mean 1e-3 + 2e-5*atoms + (#elements+1)*10^-resolution + sum|count-round(count)|*|avg-mono| (the library prunes per-element terms below 1e-8, which biases the mean by up to ~5e-6 per atom); neutron view vs binned mass view 1e-5 absolute; exact expansion 1e-6 absolute on sum-normalised abundances',
+    'tolerances: lightest peak (#elements+1)*10^-resolution; mean 1e-4 + 1e-5*atoms + (#elements+1)*10^-resolution (the library prunes per-element terms below 1e-8, which biases the mean by up to ~5e-6 per atom; no allowance for fractional counts); neutron view vs binned mass view 1e-5 absolute on sum-normalised abundances up to 40 atoms, growing in proportion to the atom count beyond (the same pruning removes more terms from the mass view, which has more distinct keys); exact expansion 1e-6 absolute on sum-normalised abundances',
 ]
 
 LIGHT = ['C', 'H', 'N', 'O', 'S', 'P']
@@ -33,33 +33,55 @@ def _norm_ok(dist, abundance, is_sum):
     return abs(v - abundance) <= 1e-9 * max(1.0, abundance)
 
 
-@lru_cache(None)
+_PRUNED = {}
+
+
 def _pruning_bias(el, n):
     """mean shift caused by dropping every product term below 1e-8 during the n-fold self-convolution of one element's isotope
     pattern (the documented per-element pruning), computed from the reference isotope table"""
     rows = [(m, ab) for _a, m, ab in refchem.table()[el] if ab > 0]
-    dist = {0.0: 1.0}
-    for _ in range(int(n)):
+    steps = _PRUNED.setdefault(el, [{0.0: 1.0}])
+    while len(steps) <= n:
         nd = {}
-        for m1, a1 in dist.items():
+        for m1, a1 in steps[-1].items():
             for m2, a2 in rows:
                 a = a1 * a2
                 if a >= 1e-8:
                     k = m1 + m2
                     nd[k] = nd.get(k, 0.0) + a
-        dist = nd
+        steps.append(nd)
+    dist = steps[int(n)]
     tot = sum(dist.values())
     return sum(m * a for m, a in dist.items()) / tot - n * refchem.atom_mass(el, False)
+
+
+MEAN_BASE, MEAN_PER_ATOM = 1e-4, 1e-5
+
+
+def _fraction_at_mono(comp, d, tol):
+    """is d (mean - average mass) the amount that follows from weighing the fractional part of every count at its monoisotopic
+    instead of its average mass?  Either neighbour is accepted as the rounded count of a count ending in .5"""
+    fr = [(k, v) for k, v in comp.items() if k not in ('e', 'p', 'n') and v != int(v)]
+    opts = []
+    for k, v in fr:
+        lo, hi = math.floor(v), math.ceil(v)
+        near = [lo] if v - lo < 0.5 - 1e-9 else [hi] if hi - v < 0.5 - 1e-9 else [lo, hi]
+        opts.append([-(v - c) * (refchem.atom_mass(k, False) - refchem.atom_mass(k, True)) for c in near])
+    return any(abs(d - sum(choice)) <= tol for choice in itertools.product(*opts))
 
 
 def _exact(comp, neutron=False):
     """exact expansion: dict key -> abundance; key = integer neutron offset (relative to the most abundant isotopes) or mass"""
     dist = {0: 1.0}
     for el, n in comp.items():
-        rows = refchem.table()[el] if not el[0].isdigit() and el not in ('D', 'T') else None
+        rows = refchem.table()[el] if not el[0].isdigit() and el not in ('D', 'T', 'e', 'p', 'n') else None
         if rows is None:
             m = refchem.atom_mass(el)
-            dist = {(k + (0 if neutron else m * n)): a for k, a in dist.items()}
+            nd = {}
+            for k, a in dist.items():
+                kk = k + (0 if neutron else m * n)
+                nd[kk] = nd.get(kk, 0.0) + a
+            dist = nd
             continue
         rows = [(a, m, ab) for a, m, ab in rows if ab > 0]
         base = max(rows, key=lambda r: r[2])[0]
@@ -135,15 +157,17 @@ def check_case(case) -> Result:
         avg = refchem.comp_mass({k: v for k, v in comp.items() if v != 0}, False)
         tot = sum(a for _m, a in dist)
         mean = sum(m * a for m, a in dist) / tot
-        slack = sum(abs(v - round(v)) * abs(refchem.atom_mass(k, False) - refchem.atom_mass(k, True))
-                    for k, v in comp.items() if k not in ('e', 'p', 'n'))
-        tol = 1e-3 + 2e-5 * atoms + ne * 10 ** (-res) + slack
+        tol = MEAN_BASE + MEAN_PER_ATOM * atoms + ne * 10 ** (-res)
         d = mean - avg
         if abs(d) > tol:
             if particles and int_formula and abs(d + part_off) <= tol:
                 sig = 'C14/mean/particle-offset-ignored-for-integer-formula'
-            elif any(e in ('Se', 'Fe') for e in elements) and \
-                    abs(d - sum(_pruning_bias(e, int(round(comp[e]))) for e in elements if e in HEAVY)) <= tol + 0.02 * abs(d):
+            elif frac and _fraction_at_mono(comp, d, tol):
+                # the library computes the pattern of the composition rounded to whole atoms and shifts it by the MONOISOTOPIC mass of
+                # the rounded-off part, so the mean misses the average mass by (count - rounded count) * (average - monoisotopic)
+                sig = 'C14/mean/fractional-part-weighed-at-monoisotopic-mass'
+            elif int_formula and all(e in LIGHT or e in HEAVY for e in elements) and \
+                    abs(d - sum(_pruning_bias(e, comp[e]) for e in elements)) <= ne * 10 ** (-res) + 1e-4 + 0.02 * abs(d):
                 # every product below 1e-8 is dropped inside the per-element expansion (it cannot be switched off); for elements
                 # with many abundant isotopes most of the expansion consists of such terms and the mean drifts
                 sig = 'C14/mean/per-element-pruning-drops-abundance-of-many-isotope-elements'
@@ -153,7 +177,7 @@ def check_case(case) -> Result:
 
     # neutron-offset view == mass view binned by nominal mass
     labelled = any(e[0].isdigit() or e in 'DT' for e in elements)
-    if (case['compare_views'] or labelled) and int_formula and elements and all(e in LIGHT or e[0].isdigit() or e in 'DT' for e in elements):
+    if (case['compare_views'] or labelled) and elements and all(e in LIGHT or e[0].isdigit() or e in 'DT' for e in elements):
         kw2 = dict(distribution_resolution=max(res, 3), distribution_abundance=1.0, is_abundance_sum=True)
         mv = pt.isotopic_distribution(dict(comp), use_neutron_count=False, **kw2)
         nv = pt.isotopic_distribution(dict(comp), use_neutron_count=True, **kw2)
@@ -163,13 +187,14 @@ def check_case(case) -> Result:
             k = int(round(m - m0))
             bins[k] = bins.get(k, 0.0) + a
         nd = dict(nv)
-        bad = [k for k in set(bins) | set(nd) if abs(bins.get(k, 0.0) - nd.get(k, 0.0)) > 1e-5]
+        vtol = 1e-5 * max(1.0, atoms / 40)
+        bad = [k for k in set(bins) | set(nd) if abs(bins.get(k, 0.0) - nd.get(k, 0.0)) > vtol]
         if bad:
             r.fail('the neutron-offset view is the mass view binned by nominal mass', 'C14/neutron-view-vs-mass-view',
                    offsets=sorted(bad)[:10], mass_bins={k: bins.get(k) for k in sorted(bad)[:10]},
                    neutron={k: nd.get(k) for k in sorted(bad)[:10]}, **ctx)
         # documented masses for neutron offsets: formula mass + offset * neutron mass
-        if not particles:
+        if not particles and int_formula:
             nm = pt.isotopic_distribution(dict(comp), use_neutron_count=True, output_masses_for_neutron_offset=True, **kw2)
             fm = refchem.comp_mass(comp, True)
             for (k, a), (m, a2) in zip(nv, nm):
@@ -212,7 +237,7 @@ def check_exact(case) -> Result:
     r = Result()
     comp = {k: v for k, v in case['comp'] if v}
     r.nontrivial = len(comp) >= 2
-    r.classes = [f'atoms={sum(comp.values())}']
+    r.classes = [f'atoms={sum(v for k, v in comp.items() if k not in ("e", "p", "n"))}']
     ctx = dict(composition=comp)
     if not comp:
         return r
@@ -319,10 +344,10 @@ def check_estimate(case) -> Result:
         avg = refchem.comp_mass(comp, False)
         tot = sum(a for _x, a in dist)
         mean = sum(x * a for x, a in dist) / tot
-        slack = sum(abs(v - round(v)) * abs(refchem.atom_mass(k, False) - refchem.atom_mass(k, True)) for k, v in comp.items())
-        tol = 1e-3 + 2e-5 * sum(comp.values()) + 6 * 10 ** (-res) + slack
+        tol = MEAN_BASE + MEAN_PER_ATOM * sum(comp.values()) + 6 * 10 ** (-res)
         if abs(mean - avg) > tol:
-            r.fail('abundance-weighted mean equals the average mass', 'C14/estimate/mean', got=mean, expected=avg, tol=tol, **ctx)
+            sig = 'C14/mean/fractional-part-weighed-at-monoisotopic-mass' if _fraction_at_mono(comp, mean - avg, tol) else 'C14/estimate/mean'
+            r.fail('abundance-weighted mean equals the average mass', sig, got=mean, expected=avg, tol=tol, **ctx)
     return r
 
 
@@ -341,7 +366,8 @@ def options():
         'min_abundance': st.sampled_from([None, None, 0, 1e-6, 1e-3]),
         'resolution': st.integers(0, 6),
         'neutron': st.booleans(), 'out_masses': st.booleans(),
-        'abundance': st.one_of(st.just(1.0), st.sampled_from([100.0, 0.5, 1e6, 1e-3]), st.floats(1e-3, 1e6, allow_nan=False)),
+        'abundance': st.one_of(st.just(1.0), st.sampled_from([100.0, 0.5, 1e6, 1e-3, 1e-7]), st.floats(1e-3, 1e6, allow_nan=False),
+                               st.floats(1e-9, 1e-3, allow_nan=False, exclude_min=True)),
         'is_sum': st.booleans()})
 
 
@@ -358,6 +384,12 @@ def strategy(tier):
             return {'comp': [[draw(st.sampled_from(['Se', 'Se', 'Fe'])), draw(st.integers(10, 22))]] +
                     ([[draw(st.sampled_from(LIGHT)), draw(st.integers(1, 30))]] if draw(st.booleans()) else []),
                     'opts': o, 'compare_views': False}
+        if draw(st.integers(0, 19)) == 11:
+            # counts at the top of the stated range, in either tier
+            o = draw(options())
+            return {'comp': [[draw(st.sampled_from(LIGHT)), draw(st.integers(150, 200))]] +
+                    ([[draw(st.sampled_from(LIGHT)), draw(st.integers(1, 30))]] if draw(st.booleans()) else []),
+                    'opts': o, 'compare_views': draw(st.integers(0, 3)) == 0}
         comp = []
         heavy_budget = 60 if (sum(1 for e in els if e in HEAVY) == 1 and len(els) <= 3 and draw(st.integers(0, 2)) == 0) else 8
         for e in els:
@@ -367,13 +399,18 @@ def strategy(tier):
                 heavy_budget -= c
             else:
                 c = draw(st.one_of(st.integers(0, 12), st.integers(0, big)))
-            if draw(st.integers(0, 4)) == 2:
+            k = draw(st.integers(0, 9))
+            if k in (2, 3):
                 c = c + draw(st.sampled_from([0.5, 0.25, 0.1, 0.9, 0.4999]))
+            elif k == 4:
+                c = float(c)
             comp.append([e, c])
         if draw(st.integers(0, 3)) == 2:
-            comp.append([draw(st.sampled_from(['e', 'p', 'n'])), draw(st.integers(-3, 3))])
+            for p in draw(st.lists(st.sampled_from(['e', 'p', 'n']), min_size=1, max_size=3, unique=True)):
+                comp.append([p, draw(st.one_of(st.integers(-3, 3), st.integers(-3, 3), st.sampled_from([0.5, -1.5, 2.25, 6, -7])))])
         if draw(st.integers(0, 5)) == 3:
-            comp.append([draw(st.sampled_from(['13C', '15N', '18O', 'D', '2H', '34S'])), draw(st.integers(1, 6))])
+            comp.append([draw(st.sampled_from(['13C', '15N', '18O', '17O', 'D', '2H', '34S', '33S', 'T'])),
+                         draw(st.one_of(st.integers(1, 6), st.integers(1, 6), st.sampled_from([1.5, 2.25, 3.0])))])
         o = draw(options())
         return {'comp': comp, 'opts': o, 'compare_views': draw(st.integers(0, 2)) == 1}
     return strat()
@@ -394,6 +431,29 @@ def exact_cases():
     return gen
 
 
+LABELS = ['13C', '15N', '18O', '17O', '33S', '34S', 'D', '2H', 'T']
+PARTICLE_SETS = [[], [['e', -1]], [['p', 2]], [['n', 1]], [['e', -2], ['p', 2]], [['n', -1], ['e', 3], ['p', 1]]]
+
+
+def exact_labelled_cases():
+    """every composition over C,H,N,O,S,P with 0..4 atoms x one labelled key x count 1..3 x a few particle lists"""
+    def gen(shard, nshards):
+        i = 0
+        for total in range(0, 5):
+            for combo in itertools.combinations_with_replacement(range(6), total):
+                comp = {}
+                for c in combo:
+                    comp[LIGHT[c]] = comp.get(LIGHT[c], 0) + 1
+                for lab in LABELS:
+                    for n in (1, 2, 3):
+                        for ps in PARTICLE_SETS:
+                            i += 1
+                            if i % nshards != shard:
+                                continue
+                            yield {'comp': [[k, v] for k, v in comp.items()] + [[lab, n]] + ps}
+    return gen
+
+
 def merge_strategy():
     peak = st.tuples(st.sampled_from([100.0, 101.0, 101.5, 102.0, 100.25, 100.04, 101.004, 101.0004, 100.96]) | st.floats(50, 200, allow_nan=False),
                      st.floats(0, 1, allow_nan=False)).map(list)
@@ -407,6 +467,9 @@ def parts(tier):
         Part(name='distribution', kind='hyp', check_case=check_case, strategy=lambda: strategy(tier), examples=n),
         Part(name='exact-small', kind='enum', check_case=check_exact, cases=exact_cases(), sharded=True, exhaustive=True,
              distinct_by_construction=True, shards=16, space='every composition over C,H,N,O,S,P with 1..12 atoms (18,563 compositions)'),
+        Part(name='exact-labelled', kind='enum', check_case=check_exact, cases=exact_labelled_cases(), sharded=True, exhaustive=True,
+             distinct_by_construction=True, shards=16,
+             space='every composition over C,H,N,O,S,P with 0..4 atoms x one isotope-labelled key (9) x count 1..3 x 6 particle lists (34,020 compositions)'),
         Part(name='merge', kind='hyp', check_case=check_merge, strategy=merge_strategy, examples=n // 2),
         Part(name='estimate', kind='hyp', check_case=check_estimate, strategy=lambda: estimate_strategy(tier), examples=n // 8),
     ]
